@@ -229,3 +229,19 @@ def run(ck):
     ck.ob('C07.bucket', 'C07.bucket/purge-before-insert-or-evict', not bad7, ub.loc(purge[0]) if purge else ub.loc(),
           'upsert_bucket removes every expired contact of the bucket (erase(remove_if(expired))) before it inserts or evicts (a live contact is never '
           'evicted while an expired one sits further back)', bad7[0][1] if bad7 else None)
+
+    # ---- routing entries are (re)inserted only by the two operations that carry a freshly observed contact: add_contact (an announce) and
+    # register_peer (a handshake).  A lookup or a maintenance pass that re-inserts a contact from stored provider data rolls the routing
+    # entry back to that record's older address and expiry (upsert_bucket is private: every caller is in this unit) ----
+    ub_callers = set()
+    for f7 in list(P.fns):
+        if f7.q == KT + 'upsert_bucket':
+            continue
+        for g7 in P.with_lambdas(f7):
+            if any(g7.nodes[i].get('callee') == KT + 'upsert_bucket' for i in g7.walk()):
+                ub_callers.add(f7.q)
+    ck.floor('C07.own', 'callers of upsert_bucket', len(ub_callers), 2)
+    extra7 = sorted(ub_callers - {KT + 'add_contact', KT + 'register_peer'})
+    ck.ob('C07.own', 'C07.own/upsert-only-from-announce-and-handshake', not extra7, P.fn(extra7[0]).loc() if extra7 else ub.loc(),
+          'upsert_bucket is called only from add_contact and register_peer (found: %s): lookups (find_providers, closest_peers, shard_record, '
+          'snapshot_locators) and sweeps never write a stored contact back into the routing table' % sorted(ub_callers))
